@@ -159,6 +159,47 @@ def structVals (enc : Enc) (fs : List (Bytes × Ty)) (valF : Ty → Op → Node 
       | .ok x => structVals enc fs valF r (seen ++ [(i, x)])
     | none => structVals enc fs valF r seen
 
+mutual
+/-- what `deserialize_any` presents for a value on BOTH paths: a scalar as a string, an array as the
+sequence of its values (a header value inside an array being two values).  An object is presented
+differently by the two paths (tape: a map; stream: the bare token sequence `key = value …`), see
+`C02_any_on_object_paths_differ`; it is an error here and outside `Fits`. -/
+def anyVal (enc : Enc) : Node → R Val
+  | .leaf l => .ok (.str (decode enc l.bytes))
+  | .hdr n _ => .ok (.str (decode enc n))
+  | .arr vs => (anyVals enc vs).map Val.seq
+  | .obj _ => .error .type
+def anyVals (enc : Enc) : List Node → R (List Val)
+  | [] => .ok []
+  | .hdr n b :: r =>
+    (match anyVal enc b with
+     | .error e => .error e
+     | .ok x =>
+       match anyVals enc r with
+       | .error e => .error e
+       | .ok tl => .ok (.str (decode enc n) :: x :: tl))
+  | v :: r =>
+    (match anyVal enc v with
+     | .error e => .error e
+     | .ok x =>
+       match anyVals enc r with
+       | .error e => .error e
+       | .ok tl => .ok (x :: tl))
+end
+
+mutual
+/-- `any` is defined on both paths: scalars and arrays of such, to any depth -/
+def Node.anyOk : Node → Bool
+  | .leaf _ => true
+  | .arr vs => anyOks vs
+  | .obj _ => false
+  | .hdr _ _ => false
+def anyOks : List Node → Bool
+  | [] => true
+  | .hdr _ b :: r => b.anyOk && anyOks r
+  | v :: r => v.anyOk && anyOks r
+end
+
 /-- the value a (type, value node) pair denotes; `o` is the operator the value was written with
 (captured by `Property`).  The fuel bounds the nesting of the type (`Ty.height`); every call
 descends one level of the type. -/
@@ -176,6 +217,7 @@ def valueOfN (enc : Enc) : Nat → Ty → Op → Node → R Val
     | .map t =>
       (match v with
        | .obj dfs => (mapVals enc (valueOfN enc f t) dfs []).map Val.map
+       | .arr [] => .ok (.map []) -- an empty `{}` is an empty map as well
        | _ => .error .type)
     | .st fs =>
       (match v with
@@ -183,7 +225,9 @@ def valueOfN (enc : Enc) : Nat → Ty → Op → Node → R Val
          (match structVals enc fs (valueOfN enc f) dfs [] with
           | .error e => .error e
           | .ok seen => (structFinish fs 0 seen).map Val.st)
+       | .arr [] => (structFinish fs 0 []).map Val.st
        | _ => .error .type)
+    | .any => anyVal enc v
     | ty =>
       -- a header value read with a scalar target yields the header's name; its body is skipped
       (match v with
@@ -203,14 +247,21 @@ def Ty.isRoot : Ty → Bool
   | .st _ | .map _ => true
   | _ => false
 
+/-- typed scalars and strings (what a container can never be read as) -/
+def Ty.isTypedLeaf : Ty → Bool
+  | .bool | .i64 | .u64 | .i32 | .u32 | .f64 | .f32 | .str => true
+  | _ => false
+
 /-- typed leaves, strings, `any`, unit enums -/
 def Ty.isPlainScalar : Ty → Bool
   | .bool | .i64 | .u64 | .i32 | .u32 | .f64 | .f32 | .str | .any | .en _ => true
   | _ => false
 
-/-- the target type requests the document's shape: scalars as scalars, maps as maps (structs
-may leave fields undeclared: those are skipped whatever they contain), sequences as sequences;
-`ign` fits everything; `Option` / `Property` are transparent -/
+/-- the (type, value) pairs on which the two paths are proved to agree with `valueOf`.  Mostly: the
+target type requests the document's shape -- scalars as scalars, maps as maps (structs may leave fields
+undeclared: those are skipped whatever they contain), sequences as sequences; `ign` fits everything;
+`Option` / `Property` are transparent; `any` stands for scalars and arrays.  Also the mismatches that
+both paths reject identically (the last four constructors), so that error results are covered. -/
 inductive Fits (enc : Enc) : Ty → Node → Prop where
   | scalar {ty : Ty} {l : Leaf} : Ty.isPlainScalar ty = true → Fits enc ty (.leaf l)
   | hdrScalar {ty : Ty} {n : Bytes} {b : Node} : Ty.isPlainScalar ty = true → Fits enc ty (.hdr n b)
@@ -222,6 +273,17 @@ inductive Fits (enc : Enc) : Ty → Node → Prop where
   | st {fs : List (Bytes × Ty)} {dfs : List (Bytes × Op × Node)} :
       (∀ k o v, (k, o, v) ∈ dfs → ∀ i t, lookupIdx (decode enc k) fs 0 = some (i, t) → Fits enc t v) →
       Fits enc (.st fs) (.obj dfs)
+  /-- `any` on an array of scalars / arrays, to any depth -/
+  | anyArr {vs : List Node} : anyOks vs = true → Fits enc .any (.arr vs)
+  /-- an empty `{}` read as a map / a struct -/
+  | emptyMap {t : Ty} : Fits enc (.map t) (.arr [])
+  | emptySt {fs : List (Bytes × Ty)} : Fits enc (.st fs) (.arr [])
+  /-- MISMATCHES both paths reject in the same way (`invalid type`): a typed scalar or a string
+  requested for a container, a map or a struct requested for a scalar -/
+  | leafOnObj {ty : Ty} {dfs : List (Bytes × Op × Node)} : Ty.isTypedLeaf ty = true → Fits enc ty (.obj dfs)
+  | leafOnArr {ty : Ty} {vs : List Node} : Ty.isTypedLeaf ty = true → Fits enc ty (.arr vs)
+  | mapOnLeaf {t : Ty} {l : Leaf} : Fits enc (.map t) (.leaf l)
+  | stOnLeaf {fs : List (Bytes × Ty)} {l : Leaf} : Fits enc (.st fs) (.leaf l)
 
 /-- `Fits` as the tape path needs it (and therefore the agreement of the two paths).  The flag says
 whether the value is in field position: `Property` captures an operator only there (an array element
@@ -242,6 +304,44 @@ inductive FitsT (enc : Enc) : Bool → Ty → Node → Prop where
   | st {b : Bool} {fs : List (Bytes × Ty)} {dfs : List (Bytes × Op × Node)} :
       (∀ k o v, (k, o, v) ∈ dfs → ∀ i t, lookupIdx (decode enc k) fs 0 = some (i, t) → FitsT enc true t v) →
       FitsT enc b (.st fs) (.obj dfs)
+  | anyArr {b : Bool} {vs : List Node} : anyOks vs = true → FitsT enc b .any (.arr vs)
+  | emptyMap {b : Bool} {t : Ty} : FitsT enc b (.map t) (.arr [])
+  | emptySt {b : Bool} {fs : List (Bytes × Ty)} : FitsT enc b (.st fs) (.arr [])
+  | leafOnObj {b : Bool} {ty : Ty} {dfs : List (Bytes × Op × Node)} : Ty.isTypedLeaf ty = true → FitsT enc b ty (.obj dfs)
+  | leafOnArr {b : Bool} {ty : Ty} {vs : List Node} : Ty.isTypedLeaf ty = true → FitsT enc b ty (.arr vs)
+  | mapOnLeaf {b : Bool} {t : Ty} {l : Leaf} : FitsT enc b (.map t) (.leaf l)
+  | stOnLeaf {b : Bool} {fs : List (Bytes × Ty)} {l : Leaf} : FitsT enc b (.st fs) (.leaf l)
+
+/-- the complement of `FitsT`: the (type, value) pair contains a combination on which the two paths
+are NOT claimed to agree.  Every atomic combination listed here has a witness on which the modelled
+paths (and the real code) do disagree, see `C02_divergent_*` in Props/C02. -/
+inductive Bad (enc : Enc) : Bool → Ty → Node → Prop where
+  /-- `any` presents an object as a map on the tape path, as the bare token sequence on the stream path -/
+  | anyObj {b : Bool} {dfs : List (Bytes × Op × Node)} : Bad enc b .any (.obj dfs)
+  | anyArr {b : Bool} {vs : List Node} : anyOks vs = false → Bad enc b .any (.arr vs)
+  /-- `any` on a header value: the body (tape) / the name (stream) -/
+  | anyHdr {b : Bool} {n : Bytes} {body : Node} : Bad enc b .any (.hdr n body)
+  /-- an enum requested for a container: the tape path takes the first element as the variant -/
+  | enObj {b : Bool} {vs : List Bytes} {dfs : List (Bytes × Op × Node)} : Bad enc b (.en vs) (.obj dfs)
+  | enArr {b : Bool} {vs : List Bytes} {xs : List Node} : Bad enc b (.en vs) (.arr xs)
+  /-- a sequence requested for something that is not an array: the stream path ignores the current token -/
+  | seqLeaf {b : Bool} {t : Ty} {l : Leaf} : Bad enc b (.seq t) (.leaf l)
+  | seqObj {b : Bool} {t : Ty} {dfs : List (Bytes × Op × Node)} : Bad enc b (.seq t) (.obj dfs)
+  | seqHdr {b : Bool} {t : Ty} {n : Bytes} {body : Node} : Bad enc b (.seq t) (.hdr n body)
+  /-- a map / struct requested for a non-empty array (tape: the synthetic `remainder` key) or a header value -/
+  | mapArr {b : Bool} {t : Ty} {x : Node} {xs : List Node} : Bad enc b (.map t) (.arr (x :: xs))
+  | mapHdr {b : Bool} {t : Ty} {n : Bytes} {body : Node} : Bad enc b (.map t) (.hdr n body)
+  | stArr {b : Bool} {fs : List (Bytes × Ty)} {x : Node} {xs : List Node} : Bad enc b (.st fs) (.arr (x :: xs))
+  | stHdr {b : Bool} {fs : List (Bytes × Ty)} {n : Bytes} {body : Node} : Bad enc b (.st fs) (.hdr n body)
+  /-- `Property` outside field position (array element, nested `Property`) -/
+  | propElem {t : Ty} {v : Node} : Bad enc false (.prop t) v
+  | opt {b : Bool} {t : Ty} {v : Node} : Bad enc b t v → Bad enc b (.opt t) v
+  | prop {t : Ty} {v : Node} : Bad enc false t v → Bad enc true (.prop t) v
+  | seqElem {b : Bool} {t : Ty} {vs : List Node} {v : Node} : v ∈ expandNodes vs → Bad enc false t v → Bad enc b (.seq t) (.arr vs)
+  | mapElem {b : Bool} {t : Ty} {dfs : List (Bytes × Op × Node)} {k : Bytes} {o : Op} {v : Node} :
+      (k, o, v) ∈ dfs → Bad enc true t v → Bad enc b (.map t) (.obj dfs)
+  | stElem {b : Bool} {fs : List (Bytes × Ty)} {dfs : List (Bytes × Op × Node)} {k : Bytes} {o : Op} {v : Node} {i : Nat} {t : Ty} :
+      (k, o, v) ∈ dfs → lookupIdx (decode enc k) fs 0 = some (i, t) → Bad enc true t v → Bad enc b (.st fs) (.obj dfs)
 
 /-! ### parser outputs a document stands for -/
 
